@@ -1208,6 +1208,11 @@ func (m *Model) numberMethod(a *Node, item any, next emitFn, isDecimal bool) *me
 		return suppErr("value does not fit numeric(%d,%d)", p, s)
 	}
 	rf, _ := rounded.Float64()
+	if rf == 0 && f < 0 {
+		// a negative value rounded to zero: the sign of the zero is not fixed by the
+		// rules (the implementation keeps IEEE -0); .string() of it is left open
+		rf = math.Copysign(0, -1)
+	}
 	return next(rf)
 }
 
